@@ -269,19 +269,19 @@ func specRecords(es []SymbolEntry, k int) uint32 {
 }
 
 //@ func (*CoffFormat).Write
-//@ props C08 C09 C13
+//@ props C08 C09 C13 C19
 //@ requires c != nil && ctx != nil
 //@ requires[A14] specNamesSmall(ctx.GlobalSymbolList) && specNamesSmall(ctx.ExternSymbolList)
 //@ requires[A17] len(ctx.MachineCode) < 1<<30
-//@ loop 0 invariant[bufs] buf != nil && symbolTableResultBytes != nil && len(buf.Bytes()) == 140+len(ctx.MachineCode) && len(symbolTableResultBytes.Bytes()) == 18*int(numSymbolsWritten) && int(numSymbolsWritten) <= 2*iter
-//@ loop 0 invariant[recs] numSymbolsWritten == specRecords(allSymbolEntries, iter)
-//@ loop 0 invariant[wf] len(allSymbolEntries) <= 4+(1<<17) && forall(0, len(allSymbolEntries), func(i int) bool { return specAuxOK(allSymbolEntries[i]) })
-//@ loop 1 invariant[hdrs] using(hdrs, bufs) len(sectionHeaders) == 3 && currentOffset == 20+40*iter && len(finalBytes) == 140+len(ctx.MachineCode)+18*int(numSymbolsWritten)+4+len(stringTableBytes)
-//@ loop 1 invariant[text] using(hdrs, text) iter <= 3 && forall(0, len(ctx.MachineCode), func(i int) bool { return finalBytes[140+i] == ctx.MachineCode[i] })
-//@ calls[hdr] (*filefmt.CoffFormat).generateHeader : arg2 == 3 && arg3 == uint32(140+len(ctx.MachineCode))
-//@ calls[secs] (*filefmt.CoffFormat).generateSectionHeaders : arg2 == 140 && arg3 == uint32(len(ctx.MachineCode)) && arg7 == uint32(140+len(ctx.MachineCode))
+//@ loop 0 invariant[bufs@C08+C09] buf != nil && symbolTableResultBytes != nil && len(buf.Bytes()) == 140+len(ctx.MachineCode) && len(symbolTableResultBytes.Bytes()) == 18*int(numSymbolsWritten) && int(numSymbolsWritten) <= 2*iter
+//@ loop 0 invariant[recs@C08+C09] numSymbolsWritten == specRecords(allSymbolEntries, iter)
+//@ loop 0 invariant[wf@C08+C09] len(allSymbolEntries) <= 4+(1<<17) && forall(0, len(allSymbolEntries), func(i int) bool { return specAuxOK(allSymbolEntries[i]) })
+//@ loop 1 invariant[hdrs@C08+C09] using(hdrs, bufs) len(sectionHeaders) == 3 && currentOffset == 20+40*iter && len(finalBytes) == 140+len(ctx.MachineCode)+18*int(numSymbolsWritten)+4+len(stringTableBytes)
+//@ loop 1 invariant[text@C08+C09] using(hdrs, text) iter <= 3 && forall(0, len(ctx.MachineCode), func(i int) bool { return finalBytes[140+i] == ctx.MachineCode[i] })
+//@ calls[hdr@C08] (*filefmt.CoffFormat).generateHeader : arg2 == 3 && arg3 == uint32(140+len(ctx.MachineCode))
+//@ calls[secs@C08] (*filefmt.CoffFormat).generateSectionHeaders : arg2 == 140 && arg3 == uint32(len(ctx.MachineCode)) && arg7 == uint32(140+len(ctx.MachineCode))
 //@ final[layout@C08] using(bufs, recs, hdrs) symbolTableOffset == uint32(140+len(ctx.MachineCode)) && textDataOffset == 140 && textDataSize == uint32(len(ctx.MachineCode)) && header.NumberOfSymbols == specRecords(allSymbolEntries, len(allSymbolEntries)) && header.PointerToSymbolTable == symbolTableOffset && len(finalBytes) == 140+len(ctx.MachineCode)+18*int(header.NumberOfSymbols)+4+len(stringTableBytes) && stringTableTotalSize == uint32(len(stringTableBytes)+4)
 //@ final[hdrvals@C08] using(hdrs) header.Machine == 0x14c && header.NumberOfSections == 3 && header.SizeOfOptionalHeader == 0 && len(sectionHeaders) == 3 && sectionHeaders[0].SizeOfRawData == uint32(len(ctx.MachineCode)) && sectionHeaders[0].PointerToRawData == 140 && sectionHeaders[0].NumberOfRelocations == 0 && sectionHeaders[1].SizeOfRawData == 0 && sectionHeaders[1].PointerToRawData == 0 && sectionHeaders[2].SizeOfRawData == 0 && sectionHeaders[2].PointerToRawData == 0 && specName8(sectionHeaders[0].Name, ".text") && specName8(sectionHeaders[1].Name, ".data") && specName8(sectionHeaders[2].Name, ".bss")
 //@ final[text@C09] using(hdrs, text) forall(0, len(ctx.MachineCode), func(i int) bool { return finalBytes[140+i] == ctx.MachineCode[i] })
-//@ ensures[once] result0 == nil ==> vcWriteCount() == 1
+//@ ensures[once@C19+C08] result0 == nil ==> vcWriteCount() == 1
 //@ assigns *
